@@ -220,6 +220,22 @@ def run(ctx):
                                                       alphas={b: {c: 1 for c in names} for b in names}, **extra), ValueError, "bloc_names")
         expect(ctx, {"what": "combine_preference_intervals: overlapping candidate sets"},
                lambda: comb([PI({"A": 1, "B": 1}), PI({"B": 1, "C": 2})], [0.5, 0.5]), ValueError, "interval_overlap")
+        # overlaps where the shared candidate has zero support on one or both sides are overlaps too
+        for sa, sb in ((0, 1), (1, 0), (0, 0), (rnd.choice([0.5, 2]), rnd.choice([0.5, 2]))):
+            ia = {"A": 2, "B": 3, "D": sa}
+            ib = {"D": sb, "E": 1}
+            expect(ctx, {"what": f"combine_preference_intervals: shared candidate D with supports {sa} and {sb}"},
+                   lambda ia=ia, ib=ib: comb([PI(dict(ia)), PI(dict(ib))], [0.5, 0.5]), ValueError, "interval_overlap")
+            q = copy.deepcopy(p)
+            b0, b1 = names[0], names[1]
+            shared = q["slate_to_candidates"][b1][0]
+            q["pref_intervals_by_bloc"][b0][b0][shared] = sa  # bloc b0's interval for its own slate also lists a b1 candidate
+            q["pref_intervals_by_bloc"][b0][b1][shared] = sb if len(q["pref_intervals_by_bloc"][b0][b1]) > 1 or sb else 1
+            mdl = rnd.choice(["name_PlackettLuce", "name_BradleyTerry", "name_Cumulative"])
+            ex2 = {"num_votes": 2} if mdl == "name_Cumulative" else {}
+            if q["pref_intervals_by_bloc"][b0][b1][shared] == sb:
+                expect(ctx, {"what": f"{mdl}: a bloc's intervals overlap in {shared} (supports {sa}, {sb})", "model": mdl, "params": q},
+                       lambda q=q, mdl=mdl, ex2=ex2: bp.make(mdl, q, ex2), ValueError, "interval_overlap")
         expect(ctx, {"what": "combine_preference_intervals: disjoint candidate sets"},
                lambda: comb([PI({"A": 1, "B": 1}), PI({"C": 2})], [0.5, 0.5]), None, "interval_overlap")
         for d, ok in ((1e-6, False), (0.2, False), (1e-12, True)):
